@@ -12,6 +12,7 @@ steps (executed in order by the main thread):
   ['close'] ['join'] ['terminate'] ['terminate_job', tag] ['sigterm_worker', tag]
   ['kill_idle', sig] ['snapshot', name] ['del_pool'] ['apply_sync', tag, script]
   ['map_sync', tag, script, n, chunksize, kind]
+  ['maintain'] ['pump', seconds] ['drive', seconds]   (threads=False pools)
 """
 import faulthandler
 import functools
@@ -73,6 +74,19 @@ def main():
         max_restarts=pc.get('max_restarts'), enable_timeouts=True,
     )
     started[0] = True
+    starts = []
+    if pc.get('slow_start'):
+        # replacement workers take a while to fork (a busy parent, a large
+        # process): the window between "listed in the pool" and "has a process"
+        base = pool._Process
+
+        class SlowStart(base):
+            def start(self):
+                starts.append(time.monotonic())
+                event('starting', len(starts), '%.6f' % time.monotonic())
+                time.sleep(pc['slow_start'])
+                return super().start()
+        pool._Process = SlowStart
     handles = {}
     state = {'pool': pool}
 
@@ -273,6 +287,11 @@ def main():
                 rec['pid'] = idle[0] if idle else None
                 if idle:
                     kill_pid(idle[0], step[1])
+            elif op == 'wait_starts':
+                end = time.monotonic() + step[2]
+                while len(starts) < step[1] and time.monotonic() < end:
+                    time.sleep(0.005)
+                rec['starts'] = len(starts)
             elif op == 'wait_ups':
                 # until k workers have been started since the pool was built
                 end = time.monotonic() + step[2]
@@ -280,6 +299,31 @@ def main():
                         time.monotonic() < end:
                     time.sleep(0.005)
                 rec['ups'] = len(obs['ups']) - pc['procs']
+            elif op == 'maintain':
+                # one supervision pass, by hand (pools without helper threads)
+                pool._maintain_pool()
+            elif op == 'pump':
+                # the result handler's work, by hand: consume what is there
+                n = 0
+                end = time.monotonic() + step[1]
+                while time.monotonic() < end:
+                    if not pool._outqueue._reader.poll(0.05):
+                        break
+                    pool.handle_result_event()
+                    n += 1
+                rec['consumed'] = n
+            elif op == 'drive':
+                # supervision passes and result consumption until every handle
+                # is ready (or the time is up)
+                end = time.monotonic() + step[1]
+                while time.monotonic() < end:
+                    pool._maintain_pool()
+                    while pool._outqueue._reader.poll(0.02):
+                        pool.handle_result_event()
+                    if all(h is None or h.ready() for k, h in handles.values()
+                           if k in ('apply', 'map', 'starmap')):
+                        break
+                    time.sleep(0.05)
             elif op == 'wait_size':
                 end = time.monotonic() + step[2]
                 while time.monotonic() < end:
